@@ -1,4 +1,5 @@
 import GqlProofs.Visitor
+import GqlProofs.VisitorParallel
 import GqlModel.Tables
 import Generated.Tables
 /-! # C14 — AST traversal visits every node once, in order, honouring skip and break
@@ -189,6 +190,34 @@ theorem leave_ctx_eq_enter_ctx (v : Visitor σ) (id : Nat) (slots : List Slot) (
   simp only [visitNode, he, hs]
   rcases hL : v.leave st2 id { c with path := c.path.dropLast } with ⟨st3, a⟩
   cases a <;> simp_all
+
+/-- `VisitInParallel`: several visitors run in parallel each observe what they would observe alone.
+For every tree with distinct node identities (Go: distinct pointers), every list of stateful sub-visitors
+and every list of initial states, the traversal driven by the parallel visitor ends normally with each
+sub-visitor in exactly the state its own traversal ends in, marked BREAK iff its own traversal broke —
+whatever the other sub-visitors skip or break. -/
+theorem parallel_projection (vs : List (Visitor σ)) (sts : List σ) (root : Node)
+    (hl : sts.length = vs.length) (hnd : root.pre.Nodup) :
+    walk (parallel vs) root (sts.map (fun st => (st, Mark.active))) =
+      (List.zipWith (fun v st => ((walk v root st).1, markOf (walk v root st).2)) vs sts, false) := by
+  unfold walk
+  rw [node_fold (parallel vs) (parallel_alwaysCont vs), parallel_fold vs _ _ (by simp [hl])]
+  congr 1
+  rw [List.zipWith_map_right]
+  congr 1
+  funext v st
+  exact wrap_node v root _ st hnd
+
+/-- …and the loop of `visitor.Visit` driven by the parallel visitor does the same (by `machine_eq_reference`). -/
+theorem machine_parallel_projection (vs : List (Visitor σ)) (sts : List σ) (root : Node)
+    (hl : sts.length = vs.length) (hnd : root.pre.Nodup) :
+    ∃ N, ∀ fuel, N ≤ fuel →
+      runN (parallel vs) fuel (init root) (sts.map (fun st => (st, Mark.active))) =
+        (MS.done, List.zipWith (fun v st => ((walk v root st).1, markOf (walk v root st).2)) vs sts) := by
+  obtain ⟨N, hN⟩ := machine_eq_reference_fuel (parallel vs) root (sts.map (fun st => (st, Mark.active)))
+  refine ⟨N, fun fuel hf => ?_⟩
+  rw [hN fuel hf, parallel_projection vs sts root hl hnd]
+  simp
 
 /-- Tie to the code's tables, re-checked against the regenerated `Generated/Tables.lean` on every run:
 the child-key table the traversal uses lists exactly the node-valued fields of every AST struct, in
